@@ -171,6 +171,7 @@ func createShape(src []byte, parseAcc string) string {
 		}
 		if ev != nil {
 			ev.Evaluate(map[string]interface{}{"a": 1, "foo": "x", "x": []int{1}})
+			ev.Evaluate(map[string]interface{}{"a": "str", "foo": []byte("b"), "x": []interface{}{"s", nil, 1}, "m": map[string]interface{}{"k": "v"}})
 			ev.Evaluate(nil)
 			if ev.Expression() != string(src) {
 				problems = append(problems, "Expression() differs from the source")
